@@ -607,13 +607,15 @@ func fix128BigIntToUFix64(
 	bigInt *big.Int,
 ) UFix64Value {
 
-	if bigInt.Cmp(fixedpoint.UFix64TypeMaxScaledTo128) > 0 {
-		panic(&OverflowError{})
-	} else if bigInt.Cmp(fixedpoint.UFix64TypeMinScaledTo128) < 0 {
-		panic(&UnderflowError{})
-	}
-
+	// Drop the extra fractional digits first (truncating toward zero),
+	// then check that the result is in the range of UFix64.
 	bigInt = bigInt.Quo(bigInt, fixedpoint.Fix64ToFix128FactorAsBigInt)
+
+	if bigInt.Sign() < 0 {
+		panic(&UnderflowError{})
+	} else if !bigInt.IsUint64() {
+		panic(&OverflowError{})
+	}
 
 	return NewUFix64Value(
 		memoryGauge,
